@@ -109,13 +109,16 @@ Layouts ==
     << <<"x/10.yaml", "x/9.yaml">>, <<"one.yaml">> >>,
     << <<"conf-local/app.yaml", "conf/app.yaml">>, <<"b/c.yaml">>, <<"x/10.yaml", "x/9.yaml">> >>,
     << <<"a.yaml">>, <<"sub/a.yaml", "sub/b.yaml", "sub/c.yaml">> >>,
-    << <<"c,d.yaml">>, <<"e,1.yaml", "e,2.yaml">> >> }                        \* commas are ordinary characters of a file name
+    << <<"c,d.yaml">>, <<"e,1.yaml", "e,2.yaml">> >>,                         \* commas are ordinary characters of a file name
+    << <<"m/Zz.yaml", "m/app.yaml", "m/local.yaml">> >>,                      \* byte order, not case-folded / locale order
+    << <<"n/a-b.yaml", "n/aBb.yaml", "n/a_b.yaml">>, <<"m/Zz.yaml", "m/app.yaml", "m/local.yaml">> >> }
 PatternOf(fs) ==
   CASE fs = <<"one.yaml">> -> "one.yaml" [] fs = <<"x/10.yaml", "x/9.yaml">> -> "x/*.yaml"
     [] fs = <<"conf-local/app.yaml", "conf/app.yaml">> -> "conf*/*.yaml" [] fs = <<"z.yaml">> -> "./z.yaml"
     [] fs = <<"a.yaml">> -> "sub/../a.yaml" [] fs = <<"b/c.yaml">> -> "b//c.yaml"
     [] fs = <<"sub/a.yaml", "sub/b.yaml", "sub/c.yaml">> -> "sub/?.yaml"
     [] fs = <<"c,d.yaml">> -> "c,d.yaml" [] fs = <<"e,1.yaml", "e,2.yaml">> -> "e,?.yaml"
+    [] fs = <<"m/Zz.yaml", "m/app.yaml", "m/local.yaml">> -> "m/*.yaml" [] fs = <<"n/a-b.yaml", "n/aBb.yaml", "n/a_b.yaml">> -> "n/a?b.yaml"
 FlatFiles(l) == FlattenSeq(l)
 
 -----------------------------------------------------------------------------
